@@ -113,6 +113,25 @@ def run(eng: Engine, ck: Check):
               f'`{unparse(x)}` leaves the request\'s timer armed: at the deadline the callback runs for a request that is gone', construct=f'{f.name} cancels timer')
         ck.ob('R-C18-LOOKUP', f, x, f'{f.name}: removing an unknown/already removed ticket is not an error', tolerant, 'raises KeyError', construct=f'{f.name} tolerant',
               advisory=True)
+    # the timeout callback runs INSIDE the timer's task: it must not cancel that timer (Task.cancel() on the running task makes the
+    # next real suspension -- the emit that reports the removal -- raise CancelledError: listeners are cut off mid-way)
+    def cancels_timer(fn: FuncInfo, depth: int = 2):
+        for y in calls_in(fn.node):
+            if call_name(y) == 'cancel' and isinstance(y.func, ast.Attribute) and mentions_attr(y.func.value, 'timer'):
+                return fn, y
+            if depth > 0:
+                for cal in eng.res.callees(y, fn):
+                    if cal.cls is fn.cls and cal is not fn:
+                        r_ = cancels_timer(cal, depth - 1)
+                        if r_:
+                            return fn, y
+        return None
+    sc_ = cancels_timer(tcb)
+    has_await_after = any(isinstance(n, ast.Await) for n in walk_local(tcb.node))
+    ck.ob('R-C18-TIMER', tcb, sc_[1] if sc_ else tcb.node, 'the timeout callback does not cancel the timer it is running in', not (sc_ and has_await_after),
+          (f'`{unparse(sc_[1])[:60]}` cancels request.timer from within its own task, and the callback still awaits afterwards: CancelledError is thrown into the '
+           'emit of SearchRequestRemovedEvent at the first listener that really suspends; later listeners never hear of the removal') if sc_ else '',
+          construct='timeout callback no self-cancel')
     # timers are armed with the configured timeout and the request as argument
     tm = [x for f in repo.all_funcs() if f.cls is sm for x in calls_in(f.node) if call_name(x) == 'Timer']
     ck.floor('R-C18-TIMER.create', len(tm), 2)
